@@ -366,12 +366,12 @@ impl Check for C05 {
             emit(Case::new("str", t.into_bytes()));
         }
         // dynamic values through the whole Serializer surface
-        let n = g.count(40_000, 1_200_000);
+        let n = g.count(150_000, 6_000_000);
         for k in 0..n {
             emit(Case::with("dyn", vec![], &[r.next() as i64, (k % 7 == 0) as i64]));
         }
         // failing writers on small values
-        let n = g.count(600, 20_000);
+        let n = g.count(1_500, 60_000);
         for _ in 0..n {
             emit(Case::with("fail", vec![], &[r.next() as i64]));
         }
